@@ -224,16 +224,16 @@ by `PostSlotTransition` of the state's fork, without panic and without a runaway
 not one the specification rejects. Premise: the operation steps `OpSteps` for an invariant `Inv` holding for the
 pre-state (FULL statement: for reachable states with `ctx = ctxOf cfg st`, without that premise; see C01's header for
 what is missing). -/
-theorem M_sound_partial {cfg : Config} {block : SignedBlock} {F : Fork} {Inv : BlockM.Ctx → State → Prop}
-    (H : OpSteps cfg block F Inv) (ctx : BlockM.Ctx) (st : State) (hi : Inv ctx st)
+theorem M_sound_partial {cfg : Config} {block : SignedBlock} {F : Fork} {Inv : Nat → BlockM.Ctx → State → Prop}
+    (H : OpSteps cfg block F Inv) (k : Nat) (ctx : BlockM.Ctx) (st : State) (hi : Inv (Zrnt.Proofs.BlockM.blockNeed block k) ctx st)
     (htyped : Block.check_types cfg block = .ok ()) (r : Bytes) (hroot : block.o_post_root = some r) :
     (∀ m, Block.process_block cfg st block = .error (.invalid m) → BlockM.processBlock cfg ctx st block = .err) ∧
     (∀ m, Block.state_transition_post_slots cfg st block = .error (.invalid m) → BlockM.postSlotTransition cfg ctx st block = .err) ∧
     Safe (BlockM.processBlock cfg ctx st block) ∧ Safe (BlockM.postSlotTransition cfg ctx st block) ∧
     (∀ post, BlockM.postSlotTransition cfg ctx st block = .ok post →
       ∀ m, Block.state_transition_post_slots cfg st block ≠ .error (.invalid m)) := by
-  have h1 := Zrnt.Proofs.BlockM.processBlock_sim H ctx st hi htyped
-  have h2 := Zrnt.Proofs.BlockM.postSlot_sim H ctx st hi htyped r hroot
+  have h1 := Zrnt.Proofs.BlockM.processBlock_sim H k ctx st hi htyped
+  have h2 := Zrnt.Proofs.BlockM.postSlot_sim H k ctx st hi htyped r hroot
   refine ⟨h1.1.2, h2.1.2, h1.2, h2.2, fun post hp m hm => ?_⟩
   have := h2.1.2 m hm
   rw [hp] at this
